@@ -46,6 +46,10 @@ CHECKS["C05"] = dict(
 CHECKS["C08"] = dict(
     text="Theorems (Coq): the contact rule evaluated by isAuthorizedFor equals the declarative relation (host contact; service contact, or host contact under loose ServiceAuthorization); the group rule (loose: some member, strict: all members of a non-empty group); a row is returned iff it belongs to a contributing backend, satisfies the filters and passes the contact rule (soundness and completeness); Stats use the same selection; tables without contacts and requests without AuthUser are unaffected. Stream: generated contact assignments x 4 authorisation settings x all tables incl. by-group tables, data and Stats requests.",
     note=QE_NOTE, technique="Coq proof (declarative characterisation of the contact rules, soundness+completeness of the selection) + in-Coq differential correspondence", design="6/C08")
+CHECKS["C09"] = dict(
+    text="Theorems (Coq): the dispatch matrix generated from the code on every run (every non-pass-through table x every column incl. the unknown-column fallback x 25 usage kinds - Columns in both formats, Filter with 7 operator classes and empty/typical arguments, sum/avg/min/max, counter, group key, Sort, WaitCondition - plus 97 request-level shapes per table) has no panic or no-answer entry and covers the whole schema (C09_matrix_no_panic_entry, C09_matrix_covers_schema); every request composed of matrix lines is answered 200 or 400 and panics iff one of its lines is a panic entry (all requests, all matrices); the backend reply path (header parser, announced size, body, any decoder function, positional cell access of every consumer) answers 'backend failed' or accepts and never panics, for all byte strings; the pinned tree's reply path is refuted (short row, 10^11 bytes announced). Stream: an lmd worker process (unix socket, peers, ulimit -v) fed with generated structured and raw requests and wired to a misbehaving scripted backend; liveness, watchdog, canary query; response codes against the dispatch model, update steps against the reply path model.",
+    note="Trusted: Coq kernel + vm_compute (obligations over the generated matrix); the translator c09_gen.go which MEASURES each matrix entry by running the request through NewRequest/NewResponse/Buffer under recover and a log hook (a finite function graph extracted from the code, not a proof about Go); harness, scripted backend and worker supervision. Composition of several header lines is modelled as 'first panicking line decides' and exercised by the stream; goroutine scheduling, memory exhaustion other than the announced-size allocation and the HTTP/TLS listeners are not modelled. Axioms: none.",
+    technique="Coq proof over a dispatch matrix regenerated from the code (translator) + reply-path model proved panic free for all byte strings + in-Coq differential correspondence against a supervised lmd process", design="6/C09")
 CHECKS["C11"] = dict(
     text="Theorems (Coq, all histories of restart / count change / update cycles with a failure at any of the rebuild's table fetches): what is served is always nothing or one complete object set the backend really had (never a mixture); a completed rebuild serves the backend's current set; a failed rebuild leaves the backend reported failed or still serving the complete old set; after a restart and any faults one fault-free cycle reloads (refuted for the order of side effects of the pinned code, which the fix: commit changed). Stream: scripted backend restarts with changed object sets, FailAfter(k) for every k, recovery; all tables compared after every event, plus a concurrent reader.",
     note="Trusted: Coq kernel + vm_compute; harness and scripted backend; goroutine scheduling of the parallel rebuild and 'during' observations are exercised, not proved. Axioms: none.",
